@@ -59,7 +59,10 @@ class StepMonitor:
         self.ctx.violation(dict(self.sig, q=q), f"training step {self.step}: {msg}", dict(case=self.case, step=self.step, **(detail or {})))
         self.stop = True  # one report per run
 
-    def compare(self, loss_lib, loss_ref, ps, what="loss"):
+    def compare(self, loss_lib, loss_ref, ps, what="loss", ll=None):
+        """loss value; d loss / d log-likelihood per rollout (= the weight the surrogate gives each rollout: tight, no
+        Jacobian amplification); d loss / d theta (looser: the parameter gradient is a small residual of large cancelling
+        per-rollout terms, so 1-ulp differences in the advantages are amplified by float32 conditioning)."""
         ctx = self.ctx
         ctx.evaluation()
         ctx.count("c16_steps_checked")
@@ -67,10 +70,20 @@ class StepMonitor:
         if not (abs(a - b) <= 1e-4 * max(1.0, abs(b))):
             self.v("loss_value", f"{what} {a} != reference surrogate {b}")
             return False
+        if ll is not None and ll.requires_grad:
+            wa = torch.autograd.grad(loss_lib, [ll], retain_graph=True, allow_unused=True)[0]
+            wb = torch.autograd.grad(loss_ref, [ll], retain_graph=True, allow_unused=True)[0]
+            wa = torch.zeros_like(ll) if wa is None else wa
+            wb = torch.zeros_like(ll) if wb is None else wb
+            ctx.count("c16_rollout_weights_compared", int(ll.numel()))
+            if float((wa - wb).abs().max()) > 1e-5 * max(1e-3, float(wb.abs().max())) + 1e-8:
+                r = int((wa - wb).abs().reshape(-1).argmax())
+                self.v("rollout_weight", f"d {what} / d log-likelihood of rollout {r} is {float(wa.reshape(-1)[r]):.6g}, the reference surrogate weights it {float(wb.reshape(-1)[r]):.6g}")
+                return False
         ga, gb = grads(loss_lib, ps), grads(loss_ref, ps)
         d, s = grad_diff(ga, gb)
         ctx.count("c16_gradients_compared")
-        if d > 1e-4 * max(1e-3, s) + 1e-7:
+        if d > 2e-2 * max(1e-3, s) + 1e-6:
             self.v("gradient", f"gradient of the {what} differs from the gradient of the reference surrogate by {d:.3g} (scale {s:.3g})")
             return False
         if s > 0:
@@ -182,13 +195,13 @@ def hook_reinforce(model, mon, kind, B_hint=None):
                         return out
                     ctx.count("c16_shared_groups_checked", Bn)
             ref = -(adv.reshape(-1) * flatLL).mean()
-            mon.compare(out["loss"], ref, ps)
+            mon.compare(out["loss"], ref, ps, ll=flatLL)
             ctx.nontrivial_case(dict(c=mon.case, step=mon.step))
             return out
         else:
             raise KeyError(kind)
         ref = -((Rd - b) * LL).mean() + bl_loss_ref
-        mon.compare(out["loss"], ref, ps)
+        mon.compare(out["loss"], ref, ps, ll=policy_out["log_likelihood"])
         ctx.nontrivial_case(dict(c=mon.case, step=mon.step))
         return out
 
@@ -234,7 +247,7 @@ def hook_symnco(model, mon):
 
             ref = ref + model.alpha * invariance_loss(out["proj_embeddings"], A)
         mon.sig = dict(mon.sig, S_gt_1=S > 1, A_gt_1=A > 1, S_eq_A=(S == A))
-        mon.compare(res["loss"], ref, params_of(model.policy), what="SymNCO loss")
+        mon.compare(res["loss"], ref, params_of(model.policy), what="SymNCO loss", ll=LL)
         mon.ctx.nontrivial_case(dict(c=mon.case, step=mon.step))
         return res
 
@@ -281,7 +294,7 @@ def hook_ppo(model, mon):
                 d = v - R
                 hub = torch.where(d.abs() <= 1.0, 0.5 * d * d, d.abs() - 0.5).mean()
                 ref = sur + cfg["vf_lambda"] * hub - cfg["entropy_lambda"] * ent.mean()
-                mon.compare(loss, ref, params_of(pol, critic), what="PPO loss")
+                mon.compare(loss, ref, params_of(pol, critic), what="PPO loss", ll=ll)
                 mon.ctx.count("c16_ppo_minibatches")
                 mon.ctx.nontrivial_case(dict(c=mon.case, step=mon.step))
         return orig(loss, *a, **kw)
